@@ -33,6 +33,8 @@ func (l *Lexer) NewTokenAt(tokenType token.Type, literal string, startLine, star
 
 func baseNextToken(l *Lexer) token.Token {
 	var tok token.Token
+	// every token starts where the cursor is now (two-character operators included)
+	start := token.Position{Line: l.Line, Column: l.Column}
 
 	switch l.CurrentChar {
 	case '=':
@@ -166,6 +168,7 @@ func baseNextToken(l *Lexer) token.Token {
 		}
 	}
 
+	tok.Start = start
 	l.ReadChar()
 	return tok
 }
